@@ -19,8 +19,9 @@ META = {
                   'read/write wrappers, Parameter.__set__/finish and dispatcher.make_update/broadcast_event by a correspondence run '
                   '(sequential histories + labelled scheduled runs) and the Lean monitors judge every implementation trace.',
     'level_note': 'Trusted: Lean kernel + axioms propext/Quot.sound; hypothesis ExportExact (values Python\'s != does not tell apart '
-                  'have the same exported form) is re-tested on every sampled pair; parameter callbacks re-entering the funnel, the '
-                  'explicit timestamp=0 quirk and activation/deactivation boundaries (C08) are not modelled; CPython executes a single '
+                  'have the same exported form) is re-tested on every sampled pair; callbacks re-entering the SAME parameter, callback trees deeper than one follower level, callbacks raising '
+                  'BaseException, callbacks inside the small-step (concurrent) system and activation/deactivation boundaries (C08) '
+                  'are not modelled; CPython executes a single '
                   'attribute store / list append atomically; atomicity is proved for the model\'s lock structure and validated against '
                   'the code by scheduled runs whose label sequence the model must follow.',
     'trusted': [
@@ -30,11 +31,11 @@ META = {
     ],
     'modelled_not_verified': [
         'datatype conversion / validation (oracle tables computed by the real datatypes)',
-        'paramCallbacks (assumed not to re-enter the funnel for the same module)',
+        'what a callback function does (oracle: returns / TypeError / other Exception, optional call of another funnel)',
         'the transport behind connection.send_reply (observed at send_reply)',
     ],
     'assumptions': ['the connection is activated before the history starts and stays activated (boundaries: C08)',
-                    'the clock never returns 0 and an explicit timestamp argument is non-zero'],
+                    'the clock never returns 0'],
 }
 
 TICKS = 8            # clock ticks per second (dyadic, exact in binary64)
